@@ -394,7 +394,16 @@ func Explore(in *Interp, cfg *Config, nWorkers int, solverBin string, timeoutMs 
 							res.Violations = append(res.Violations, v)
 						}
 					}
-					if len(res.Samples) < 6 && w.end != EndAssumeFalse && (len(res.Samples) < 3 || len(w.violations) > 0) {
+					if dump := os.Getenv("SSASYM_DUMP"); dump != "" {
+						f, _ := os.OpenFile(dump, os.O_APPEND|os.O_CREATE|os.O_WRONLY, 0o644)
+						fmt.Fprintf(f, "PATH %s end=%s\n  %s\n", decString(ex.snapshot()), endString(w), strings.Join(w.trace, "\n  "))
+						f.Close()
+					}
+					if show := os.Getenv("SSASYM_SHOW"); show != "" {
+						if len(res.Samples) < 2 && strings.Count(strings.Join(w.trace, "\n"), show) >= showN() {
+							res.Samples = append(res.Samples, PathSample{Decisions: decString(ex.snapshot()), Inputs: w.inputValues(nil), Trace: w.trace, End: endString(w)})
+						}
+					} else if len(res.Samples) < 6 && w.end != EndAssumeFalse && (len(res.Samples) < 3 || len(w.violations) > 0) {
 						res.Samples = append(res.Samples, PathSample{Decisions: decString(ex.snapshot()), Inputs: w.inputValues(nil), Trace: tail(w.trace, traceTail()), End: endString(w)})
 					}
 					tooMany := maxViol > 0 && len(res.ViolCount) >= maxViol
@@ -475,4 +484,10 @@ func decString(d []Decision) string {
 		sb.WriteString(x.String())
 	}
 	return sb.String()
+}
+
+func showN() int {
+	n := 1
+	fmt.Sscan(os.Getenv("SSASYM_SHOW_N"), &n)
+	return n
 }
